@@ -1134,7 +1134,8 @@ def render_shellcheck(sc):
         nm = prm.split(':', 1)[0].strip()
         nm = re.sub(r'^mut\s+', '', nm)
         args.append(nm)
-    call = ('self.%s(%s)' % (name, ', '.join(args))) if recv else ('Self::%s(%s)' % (name, ', '.join(args)))
+    free = not any(seg.strip().startswith('impl ') for seg in sc['path'])
+    call = ('self.%s(%s)' % (name, ', '.join(args))) if recv else (('%s(%s)' if free else 'Self::%s(%s)') % (name, ', '.join(args)))
     if is_async:
         call += '.await'
     label = 'shellsync.' + '.'.join(re.sub(r'^[a-z]+\s+', '', seg).replace(' ', '') for seg in sc['path'])
